@@ -56,6 +56,21 @@ def k12_dangling_value(argv):
     return False
 
 
+def k45_bare_dash(argv):
+    """the words `-` and `--` (docopt: a positional / the options terminator; rash drops or rejects them)"""
+    return any(w in ("-", "--") for w in argv)
+
+
+def k46_dash_value(argv):
+    """an inline option value that itself starts with a dash (`--out=-1`, `-o-1`): split off and read as an option"""
+    for w in argv:
+        if w.startswith("--") and "=" in w and w.split("=", 1)[1].startswith("-"):
+            return True
+        if len(w) > 2 and w[0] == "-" and w[1] != "-" and ("-" + w[1]) in VALUED_SPELLINGS and w[2:].lstrip("=").startswith("-"):
+            return True
+    return False
+
+
 def k20_dash_positional(js):
     """the implementation bound a positional to a word that starts with a dash"""
     for k, v in js.items():
